@@ -9,7 +9,7 @@ func vC16MkSet(n int, symAddr bool) *ValidatorSet {
 	for i := 0; i < n; i++ {
 		p := vNondetInt64("power")
 		a := vNondetInt64("accum")
-		vAssume(p >= 1 && p <= 1<<20)
+		vAssume(p >= 1 && p <= int64(vParam("PMAX", 1<<20)))
 		vAssume(a > -(1<<40) && a < 1<<40)
 		addr := []byte{byte(i + 1)}
 		if symAddr {
